@@ -777,5 +777,13 @@ pub fn polygon_mesh(rng: &mut Rng, n: usize, kind: usize, cw: bool) -> PolyMesh 
             p[0] = -p[0];
         }
     }
+    // the length unit: nothing in the statement depends on it
+    let f = [1.0, 1.0, 1.0, 1.0, 1.0, 1.0, 1e-3, 1e3, 3e-9, 1e7][rng.below(10)];
+    if f != 1.0 {
+        for p in pts.iter_mut() {
+            p[0] *= f;
+            p[1] *= f;
+        }
+    }
     PolyMesh { pts, faces }
 }
